@@ -31,6 +31,15 @@ def run(patch):
         r = subprocess.run(["/venv/bin/python", "-m", "pytest", "-q", "-p", "no:cacheprovider", "--timeout=900"] + os.environ.get("NF_TESTS", "").split(), cwd=d, capture_output=True, text=True,
                            env=dict(os.environ, PYTHONDONTWRITEBYTECODE="1"))
         tail = [l for l in r.stdout.splitlines() if " passed" in l or " failed" in l or " error" in l][-1:] or [r.stdout[-200:]]
+        # a seeded fault comes with a demonstration: it must still FAIL on the normal form of the faulty tree (the normaliser must not
+        # repair or mask what was broken) - run with NF_DEMO=1
+        demo = os.path.join(os.path.dirname(patch), "demo.py") if patch else None
+        if os.environ.get("NF_DEMO") and demo and os.path.exists(demo):
+            try:
+                rd = subprocess.run(["/venv/bin/python", demo], cwd=d, capture_output=True, text=True, timeout=300, env=dict(os.environ, PYTHONDONTWRITEBYTECODE="1"))
+                tail[0] += f" | demo rc={rd.returncode}"
+            except subprocess.TimeoutExpired:
+                tail[0] += " | demo rc=TIMEOUT"
         fails = [l for l in r.stdout.splitlines() if l.startswith("FAILED") or l.startswith("ERROR")][:5]
         return patch, tail[0] + (" | " + " ; ".join(fails) if fails else "")
     finally:
